@@ -230,10 +230,88 @@ def ref_items_v(elt, v):
     for x in v: out += ref_items_s(elt, x)
     return out
 
-def ref_vhist(elt, v0, ops):
-    """expected item stream of a history under the reference model"""
+# ---- per-item error scales (B10).  Every float the reference predicts gets the magnitude S against which the allowed
+# relative difference is measured (|reference - implementation| <= rtol * S):
+#   * a value that is only moved / copied / negated (edits, get, pop, field, clone, conj, real, f64 abs, max): S = 0, identical;
+#   * an element-wise product / quotient (scale, f64 * v, *=, /=, div, complex abs): S = the magnitude of the result ITSELF
+#     (|x| |s|, |x| / |s|), so an entry 1e-6 of the largest entry of the same vector is still held to rtol of itself and is
+#     never allowed to be 0 unless the reference is;
+#   * an element-wise sum / difference (cancellation possible): S = the larger operand magnitude of that entry;
+#   * a reduction (sum, dot, product, norms, slices): S = the sum of the magnitudes of the terms (product: the product of
+#     the magnitudes) -- the scale of the standard backward error bound of ANY summation order.
+# Complex entries carry the modulus-wise S on both components.
+def _mag(x):
+    try: return abs(x)
+    except OverflowError: return math.inf
+
+def _sum_mag(xs):
+    t = 0.0
+    for x in xs: t = t + float(_mag(x))
+    return t
+
+def _prod_mag(xs):
+    t = 1.0
+    for x in xs: t = t * float(_mag(x))
+    return t
+
+def _quot_mag(x, s):
+    return float(_mag(x)) / float(_mag(s)) if s != 0 else 0.0
+
+def _expand_s(elt, S):
+    """scale of one element -> scales of its items"""
+    return [None] if elt == 'rat' else ([S] if elt == 'f64' else [S, S])
+
+def _expand_v(elt, Ss):
+    out = [None]
+    for S in Ss: out += _expand_s(elt, S)
+    return out
+
+def result_scales(elt, before, op, r):
+    """scales of the items of the RESULT r = ref_vstep(elt, ., op) computed on the vector `before`"""
+    name, a = op[0], op[1:]
+    v = before; n = len(v)
+    if r is None: return []
+    if r[0] == 'n': return [None]
+    if name in ("pop", "get"): return _expand_s(elt, 0.0)
+    if name in ("sum", "norm_1"): return _expand_s(elt, _sum_mag(v))
+    if name == "sum_slice": return _expand_s(elt, _sum_mag(v[a[0]:a[1] + 1]))
+    if name == "product": return _expand_s(elt, _prod_mag(v))
+    if name == "product_slice": return _expand_s(elt, _prod_mag(v[a[0]:a[1] + 1]))
+    if name == "dot": return _expand_s(elt, _sum_mag([float(_mag(x)) * float(_mag(y)) for x, y in zip(v, a[0])]))
+    if name == "dot_self": return _expand_s(elt, _sum_mag([float(_mag(x)) ** 2 if float(_mag(x)) < 1e150 else math.inf for x in v]))
+    if name in ("add", "sub"): return _expand_v(elt, [max(float(_mag(x)), float(_mag(y))) for x, y in zip(v, a[0])])
+    if name in ("add_self", "sub_self"): return _expand_v(elt, [float(_mag(x)) for x in v])
+    if name in ("neg", "field", "clone_into"): return _expand_v(elt, [0.0] * n)
+    if name in ("scale", "scale_l"): return _expand_v(elt, [float(_mag(x)) * float(_mag(a[0])) for x in v])
+    if name == "div": return _expand_v(elt, [_quot_mag(x, a[0]) for x in v])
+    if name == "abs": return _expand_v(elt, [float(_mag(x)) if elt == 'cplx' else 0.0 for x in v])
+    if name == "norms": return [bits_f64(it[1]) for it in r[1][:3]] + [0.0]          # each norm against its own value; the maximum is an entry
+    if name == "cxview":
+        mods = [float(_mag(z)) for z in v]
+        return _expand_v('cplx', [0.0] * n) + _expand_v('f64', [0.0] * n) + _expand_v('cplx', mods) + [max(mods)]
+    if name == "dot_f64":
+        S = _sum_mag([float(_mag(x)) * float(_mag(y)) for x, y in zip(v, a[0])])
+        return [None, S, S, S]
+    if r[0] == 'items': return [None] * len(r[1])        # integers only (cmp, cmp_self)
+    raise ValueError("no scale rule for " + name)
+
+def dump_scales(elt, before, op, after):
+    """scales of the dump of the vector after the MUTATING operation op (before -> after)"""
+    name, a = op[0], op[1:]
+    if name in ("add_assign", "sub_assign") and len(a[0]) == len(before):
+        return _expand_v(elt, [max(float(_mag(x)), float(_mag(y))) for x, y in zip(before, a[0])])
+    if name in ("add_assign_s", "sub_assign_s"): return _expand_v(elt, [max(float(_mag(x)), float(_mag(a[0]))) for x in before])
+    if name == "mul_assign_s": return _expand_v(elt, [float(_mag(x)) * float(_mag(a[0])) for x in before])
+    if name == "div_assign_s": return _expand_v(elt, [_quot_mag(x, a[0]) for x in before])
+    return _expand_v(elt, [0.0] * len(after))         # entries moved, copied, inserted, removed: identical
+
+def ref_vhist(elt, v0, ops, scales=None):
+    """expected item stream of a history under the reference model; when `scales` is a list it receives, item for item,
+    the error scale of every predicted float (None for integers, rationals, panics)"""
     v = list(v0)
     out = ref_items_v(elt, v)
+    sc = _expand_v(elt, [0.0] * len(v))
+    want = scales is not None and elt != 'rat'           # rationals are compared exactly: no scale
     for op in ops:
         snap = list(v)
         try:
@@ -241,16 +319,24 @@ def ref_vhist(elt, v0, ops):
             if r is not None:
                 if r[0] == 'items': out += r[1]
                 else: out += ref_items_s(elt, r[1]) if r[0] == 's' else (ref_items_v(elt, r[1]) if r[0] == 'v' else [('i', r[1])])
-            if op[0] in MUTATING: out += ref_items_v(elt, v)
+                if want: sc += result_scales(elt, snap, op, r)
+            if op[0] in MUTATING:
+                out += ref_items_v(elt, v)
+                if want: sc += dump_scales(elt, snap, op, v)
         except RefPanic:
             v = snap
             out += [('P', 'any')]
             out += ref_items_v(elt, v)
+            if want: sc += [None] + _expand_v(elt, [0.0] * len(v))
+    if want and len(sc) != len(out): raise ValueError("scale list out of step with the reference stream")
+    if scales is not None: scales[:] = sc if want else [None] * len(out)
     return out
 
-def streams_match(exp, got, rtol):
-    """structure, integers, rationals and panic-vs-value exactly; floats within rtol relative to the largest magnitude
-    of the run of consecutive floats they belong to (rtol = 0: bitwise up to the sign of zero).  None or a description."""
+def streams_match(exp, got, rtol, scales=None):
+    """structure, integers, rationals and panic-vs-value exactly; floats: where `scales` gives the item a scale S, within
+    rtol * S of the reference (S = 0: identical up to the sign of zero; see the table above ref_vhist) -- otherwise (callers
+    without a scale list) within rtol relative to the largest magnitude of the run of consecutive floats they belong to
+    (rtol = 0: bitwise up to the sign of zero).  None or a description."""
     if len(exp) != len(got):
         k = 0
         while k < min(len(exp), len(got)) and (exp[k] == got[k] or exp[k][0] == got[k][0] in ('P', 'f')):
@@ -274,6 +360,13 @@ def streams_match(exp, got, rtol):
             if abs(x) == math.inf or abs(y) == math.inf:
                 if x != y: return "item %d: reference %r, implementation %r" % (i, x, y)
                 continue
-            if abs(x - y) > rtol * scale:
-                return "item %d: reference %r, implementation %r (allowed relative difference %g)" % (i, x, y, rtol)
+            S = scales[i] if scales is not None else None
+            if S is None:
+                allowed = rtol * scale
+            else:
+                allowed = (rtol * S + 1e-300) if (rtol > 0 and S > 0 and S == S) else 0.0
+                if allowed == math.inf: continue
+            if not (abs(x - y) <= allowed):
+                return "item %d: reference %r, implementation %r (allowed difference %g = %g relative to %s)" % (
+                    i, x, y, allowed, rtol, "the run of floats" if S is None else "the item's own scale %g" % S)
     return None
